@@ -7,7 +7,7 @@
      trinterp_q   spatialmath/base/transforms3d.py trinterp, SE(3) case, after the two r2q calls
      trinterp_dyn the shape dispatch of trinterp (SO(3) / SE(3) / anything else) as the code has it
 
-   The models mirror the code AS IT IS (tree with the fixes ee14c5b: SO(3) case of trinterp without t2r, and 339284c: the last
+   The models mirror the code AS IT IS (frozen tree 4dbd011; r2q as re-conditioned by 1cdf860, constructor by d0fc1b2; ee14c5b: SO(3) case of trinterp without t2r, and 339284c: the last
    branch raises ValueError).  Thresholds are parameters (the regenerated
    constants of gen/Consts_C11.v are plugged in by gen/Traces_C11.v and Props/C11.v). *)
 From Coq Require Import ZArith Bool.
@@ -57,11 +57,11 @@ Definition qunit_m (ku : T) (q : V4 T) : res (V4 T) :=
   else let '(a0,a1,a2,a3) := q in Ok (a0/n, a1/n, a2/n, a3/n).
 
 (* UnitQuaternion(v) for a 4-vector v, check=True: arghandler keeps v only if isunitvec(v) (|norm - 1| < kv eps), then
-   base.unit normalises it; a vector that fails the test falls through the constructor's branches to `s.shape[1]`
-   on a 1-D array: IndexError *)
+   base.unit normalises it; a vector that fails the test falls through the constructor's branches to
+   `s.shape == (4,)`: base.unit as well (fix d0fc1b2; it used to reach `s.shape[1]` on a 1-D array: IndexError) *)
 Definition uq_construct (ku kv : T) (q : V4 T) : res (V4 T) :=
   let n := sqrt_ O (dot4 O q q) in
-  if ltb O (abs_ O (n - 1)) (kv * eps O) then qunit_m ku q else Err IndexError.
+  if ltb O (abs_ O (n - 1)) (kv * eps O) then qunit_m ku q else qunit_m ku q.
 
 (* ------------------------------------------------------------------ UnitQuaternion.interp
    dest = None is the call  uq_interp ku qone self ...  with the roles the code gives them (q1 := eye(), q2 := self);
@@ -83,12 +83,20 @@ Definition uq_interp (ku kv : T) (q1 q2 : V4 T) (s : T) (shortest : bool) : res 
 
 (* ------------------------------------------------------------------ base.q2r (same text as Lin.q2r_ref up to ring; traced too) *)
 (* ------------------------------------------------------------------ base.r2q *)
+(* as re-conditioned by fix 1cdf860: for trace > 0 the vector part is the skew part / (4 s) and the scalar part sqrt(1 - v.v);
+   otherwise the vector part as before (largest-diagonal row) and the scalar part (skew part . v) / (4 v.v) *)
 Definition r2q_m (kr : T) (Rm : M33 T) : V4 T :=
   let '((r00,r01,r02),(r10,r11,r12),(r20,r21,r22)) := Rm in
-  let two := 1 + 1 in
-  let tr1 := ((r00 + r11) + r22) + 1 in
-  let qs := sqrt_ O (if ltb O 0 tr1 then tr1 else 0) / two in
+  let two := 1 + 1 in let four := two + two in
+  let pos0 (x : T) := if ltb O 0 x then x else 0 in          (* python max(0, x) *)
+  let tr := (r00 + r11) + r22 in
+  let qs := sqrt_ O (pos0 (tr + 1)) / two in
   let kx := r21 - r12 in let ky := r02 - r20 in let kz := r10 - r01 in
+  if ltb O 0 tr then
+    let d := four * qs in
+    let vx := kx / d in let vy := ky / d in let vz := kz / d in
+    (sqrt_ O (pos0 (1 - ((vx*vx + vy*vy) + vz*vz))), vx, vy, vz)
+  else
   let '(kx1, ky1, kz1, addf) :=
     if leb O r11 r00 && leb O r22 r00 then (((r00 - r11) - r22) + 1, r10 + r01, r20 + r02, leb O 0 kx)
     else if leb O r22 r11 then (r10 + r01, ((r11 - r00) - r22) + 1, r21 + r12, leb O 0 ky)
@@ -96,7 +104,9 @@ Definition r2q_m (kr : T) (Rm : M33 T) : V4 T :=
   let '(x, y, z) := if addf then (kx + kx1, ky + ky1, kz + kz1) else (kx - kx1, ky - ky1, kz - kz1) in
   let nm := sqrt_ O ((x*x + y*y) + z*z) in
   if ltb O (abs_ O nm) (kr * eps O) then (1, 0, 0, 0)
-  else let f := sqrt_ O (1 - qs*qs) / nm in (qs, f*x, f*y, f*z).
+  else let f := sqrt_ O (1 - qs*qs) / nm in
+       let vx := f*x in let vy := f*y in let vz := f*z in
+       (pos0 (((kx*vx + ky*vy) + kz*vz) / (four * ((vx*vx + vy*vy) + vz*vz))), vx, vy, vz).
 
 (* ------------------------------------------------------------------ base.trinterp, SE(3) case after r2q *)
 Definition lerp3 (p0 p1 : V3 T) (s : T) : V3 T :=
